@@ -205,8 +205,17 @@ def out_abstract(msg):
         for f in (fa if isinstance(fa, list) else [fa]):
             for a in getattr(f, "additional_avps", []):
                 failed.append((a.code, a.vendor_id))
-    return dict(cmd=CMD.get(code) or f"App {code}", req=h.is_request, app=h.application_id,
-                hbh=h.hop_by_hop_identifier, e2e=h.end_to_end_identifier, result=rc, failed=failed)
+    d = dict(cmd=CMD.get(code) or f"App {code}", req=h.is_request, app=h.application_id,
+             hbh=h.hop_by_hop_identifier, e2e=h.end_to_end_identifier, result=rc, failed=failed)
+    if code == 257:      # what a capabilities-exchange message advertises (oracle only)
+        def lst(x):
+            return sorted(x) if isinstance(x, (list, tuple, set)) else ([] if x is None else [x])
+        d["ce"] = dict(origin_host=(getattr(msg, "origin_host", None) or b"").decode(errors="replace"),
+                       origin_realm=(getattr(msg, "origin_realm", None) or b"").decode(errors="replace"),
+                       auth=lst(getattr(msg, "auth_application_id", None)), acct=lst(getattr(msg, "acct_application_id", None)),
+                       vendor_id=getattr(msg, "vendor_id", None), product_name=getattr(msg, "product_name", None),
+                       host_ip=[str(x[1]) if isinstance(x, tuple) else str(x) for x in (getattr(msg, "host_ip_address", None) or [])])
+    return d
 
 
 def coq_omsg(d):
@@ -214,6 +223,19 @@ def coq_omsg(d):
         coq_cmd(d["cmd"]), b(d["req"]), d["app"], d["hbh"], d["e2e"],
         "None" if d["result"] is None else f"(Some {d['result']})",
         "[" + "; ".join(f"({c}, {v})" for c, v in d["failed"]) + "]"))
+
+
+def _sent_answers_view(sa):
+    """per-origin windows as [(origin, [e2e...])]; another container shape is rendered as one pseudo-origin so that the
+    comparison with the model fails instead of the harness"""
+    def name(o):
+        return o.decode() if isinstance(o, bytes) else ("<none>" if o is None else str(o))
+    try:
+        if isinstance(sa, dict):
+            return sorted((name(o), [x if isinstance(x, int) else -1 for x in d]) for o, d in sa.items())
+        return [("<not per origin: %s>" % type(sa).__name__, [])]
+    except Exception:   # noqa
+        return [("<unreadable>", [])]
 
 
 def _idkey(k):
@@ -332,7 +354,8 @@ class Run:
             sim.run()
             self._collect_new_remotes()
         elif k == "recv":
-            self.remotes[ev["cid"]].feed(b"".join(ev["frames"]))
+            # "raw": the bytes of this read when they are not exactly the frames that become complete with it
+            self.remotes[ev["cid"]].feed(ev["raw"] if "raw" in ev else b"".join(ev["frames"]))
             sim.run()
         elif k == "close":
             self.remotes[ev["cid"]].close()
@@ -459,7 +482,7 @@ class Run:
             peer_waiting=sorted((h, sorted((k if isinstance(k, tuple) else (k, 0)) for k in d)) for h, d in node._peer_waiting_answer.items()),
             app_waiting=sorted(_idkey(k) for k in node._app_waiting_answer),
             origin_waiting=sorted(_idkey(k) for k in node._origin_waiting_answer),
-            sent_answers=sorted((o.decode() if isinstance(o, bytes) else ("<none>" if o is None else str(o)), list(d)) for o, d in node._sent_answers.items()),
+            sent_answers=_sent_answers_view(node._sent_answers),
             ready=[a.is_ready.is_set() for a in self.apps],
             answer_waiting=[sorted(a._answer_waiting) for a in self.apps],
             stopping=node._stopping)
